@@ -150,12 +150,28 @@ class Functor(IUnifiable):
         else:
             return YPFail()
 
+def rename_variables(terms):
+    """Returns a copy of the list of terms in which all bindings have been resolved and
+    every unbound variable has been replaced, consistently, by a new variable."""
+    renamed = {}
+    def rename(term):
+        term = get_value(term)
+        if isinstance(term, Variable):
+            if term not in renamed:
+                renamed[term] = Variable()
+            return renamed[term]
+        if isinstance(term, Functor):
+            return Functor(term._name, [rename(a) for a in term._args])
+        return term
+    return [rename(t) for t in terms]
+
 class Answer:
-    """Data structure to represent predicates/facts."""
+    """Data structure to represent predicates/facts. A fact is a copy of the values it was
+    created with, and its variables are new variables each time it is matched."""
     def __init__(self, values):
-        self.values = values
+        self.values = rename_variables(values)
     def match(self, args):
-        return unify_arrays(args, self.values)
+        return unify_arrays(args, rename_variables(self.values))
     def __str__(self):
         return f'Answer({[to_python(x) for x in self.values]})'
 
